@@ -631,7 +631,9 @@ def c19_realize(a, jobs, seqs):
 
 def c19_run(case):
     prog = case['prog']
-    jobs = [J('j%d' % i) for i in range(6)]
+    # four atomic jobs, an empty nested scheduler (falsy: PureScheduler defines __len__) and a non-empty one: the
+    # statement speaks of jobs, and a nested scheduler is a job
+    jobs = [J('j%d' % i) for i in range(4)] + [Scheduler(label='j4-empty-nested'), Scheduler(J('inner'), label='j5-nested')]
     scheds = [PureScheduler(), Scheduler()]
     seqs = []
     m = C19Model()
@@ -818,6 +820,9 @@ def rt_cases(prop):
             # slow reaction to cancellation at a timeout / critical failure
             S('top', [J('a', duration=9, cancel_delay=0.25), J('b', duration=9, cancel_delay=0.5)], timeout=2),
             S('top', [S('in', [J('a', duration=9, cancel_delay=0.25)], timeout=2), J('z', duration=1)], [(1, 0)]),
+            # an empty nested scheduler in the middle of a chain is still one job of its parent
+            S('top', [J('x', duration=2), S('empty', []), J('y')], [(1, 0), (2, 1)]),
+            S('top', [J('x', duration=2), S('mid', [S('empty', [])], critical=True), J('y')], [(1, 0), (2, 1)]),
             # a tolerated failure first, a critical one later, along chains of critical / non-critical schedulers
             S('top', [S('n1', [S('n2', [J('t', outcome='raise'), J('x', duration=2, critical=True, outcome='raise')],
                                  critical=True)], critical=True), J('y', duration=5)], critical=True),
